@@ -33,9 +33,10 @@ Lemma arith_div_zero x : arith OP_DIV x 0 = Some 0 /\ arith OP_MOD x 0 = Some 0 
                          eval_binop BDiv (VInt x) (VInt 0) = OF FDivZero.
 Proof. repeat split. Qed.
 
-Lemma arith_min_neg1 : arith OP_DIV (-9223372036854775808) (-1) = None /\
+Lemma arith_min_neg1 : arith OP_DIV (-9223372036854775808) (-1) = Some (-9223372036854775808) /\
+                       arith OP_MOD (-9223372036854775808) (-1) = Some 0 /\
                        eval_binop BDiv (VInt (-9223372036854775808)) (VInt (-1)) = OF FDivOverflow.
-Proof. split; reflexivity. Qed.
+Proof. repeat split; reflexivity. Qed.
 
 Definition mval_of (v : value) : mval :=
   match v with VInt z => MInt z | VBool b => MBool b | VVoid => MVoid | VStr s => MStr s end.
